@@ -157,12 +157,12 @@ theorem xml_svg_attr_wellformed : type_of% @Verif.Proofs.C09Xml.svg_attr_wellfor
 /-- **CSS, declaration writer**: for all admissible values (`valsOk`: every lexeme a closed token of its type for the
     independent tokeniser, function arguments pairwise safe), every `!important` flag and every context starting
     with a stop code point, the independent CSS Syntax 3 tokeniser reads the bytes `writeDeclaration` writes as
-    exactly the tokens it was given: nothing merges, nothing splits (guard `sepOk` = known findings K-C09-CSS-1/2) -/
+    exactly the tokens it was given: nothing merges, nothing splits (inside functions: pairs that are safe back to back or that `writeFunction` separates itself since a933f35) -/
 theorem css_writer_retokenises : type_of% @Verif.Proofs.C09Css.css_writer_retokenises :=
   @Verif.Proofs.C09Css.css_writer_retokenises
 
-/-- **CSS**: without the guard on neighbours inside functions the statement is false (`f(` `red` `10%` `)` is written
-    `f(red10%)`) -/
+/-- **CSS**: without any condition on neighbours inside functions the statement is still false for pairs the writer
+    does not test (`f(` `-` `red` `)` is written `f(-red)`; no input produces them) -/
 theorem css_writer_retokenises_counterexample : type_of% @Verif.Proofs.C09Css.css_writer_retokenises_counterexample :=
   @Verif.Proofs.C09Css.css_writer_retokenises_counterexample
 
@@ -202,10 +202,6 @@ theorem css_url_closed : type_of% @Verif.Proofs.C09Css.css_url_closed := @Verif.
 theorem css_string_closed_partial : type_of% @Verif.Proofs.C09Css.css_string_closed_partial :=
   @Verif.Proofs.C09Css.css_string_closed_partial
 
-/-- **CSS, strings**: in general `removeMarkupNewlines` changes the value: `"\31\<LF>2"` (`12`) becomes `"\312"`
-    (K-C09-CSS-11) -/
-theorem css_string_closed_counterexample : type_of% @Verif.Proofs.C09Css.css_string_closed_counterexample :=
-  @Verif.Proofs.C09Css.css_string_closed_counterexample
 /-! ## HTML -/
 
 /-- **HTML attribute values**: the bytes of `EscapeAttrVal` are read by the standard's tokenizer as one value in the form
